@@ -20,6 +20,7 @@ def parseOp? (tok : String) : Option Op :=
   | ["add", pk, r, v] => do pure (.add (← pk.toNat?) ⟨← r.toNat?, ← v.toInt?⟩)
   | ["set", pk, s, v] => do pure (.set (← pk.toNat?) (← s.toNat?) (← v.toInt?))
   | ["setr", pk, s, r] => do pure (.setR (← pk.toNat?) (← s.toNat?) (← r.toNat?))
+  | ["mrg", pk, s, v] => do pure (.mergeDet (← pk.toNat?) (← s.toNat?) (← v.toInt?))
   | ["del", pk, s] => do pure (.del (← pk.toNat?) (← s.toNat?))
   | ["flush"] => some .flush
   | ["q", f, sh] => do pure (.query (← parseFilt? f) (← parseShards? sh))
